@@ -393,7 +393,7 @@ func r07Confinement(c *core.Ctx, p *load.Program) {
 		})
 		if reads {
 			readers = append(readers, fname(fn))
-			if fn != mount {
+			if fn != mount && !r07DirectUseIsMountShaped(fn, sub, fsField) {
 				okReaders = false
 			}
 		}
@@ -416,6 +416,43 @@ func r07Confinement(c *core.Ctx, p *load.Program) {
 			rx, ok0 := cl.Call.Value.(*ssa.Extract)
 			good := false
 			var mc *ssa.Call
+			// the field itself as the receiver, every string argument computed exactly as Mount computes its sub-path
+			// (name, or path.Join(base, name)): the same pair, written out (R07.3 then wants the translator to get that name
+			// and that path)
+			if isLoadOfNamedField(cl.Call.Value, sub, fsField) {
+				var nameP *ssa.Parameter
+				var pathV ssa.Value
+				good = true
+				for _, a := range cl.Call.Args {
+					if !isStringish(a.Type()) {
+						continue
+					}
+					np, okV := subViewPath(a, recv, 0)
+					if !okV {
+						good = false
+					}
+					nameP, pathV = np, a
+				}
+				c.Check(good, "R07.2", key, p.Pos(cl.Pos()), "parent file system used directly with Mount's own path computation",
+					fmt.Sprintf("%s: the call %s does not use the (file system, sub-path) pair of a single Mount call — the view would address the parent with the wrong path", fname(fn), ssax.CallName(cl)))
+				if !good || nameP == nil {
+					return
+				}
+				ev := ssax.ErrorValueOf(cl)
+				k3 := "hackpadfs.subFS." + name + "|" + ord.next("translate")
+				okT := false
+				if ev != nil && ev.Referrers() != nil {
+					for _, r := range *ev.Referrers() {
+						tc, ok := r.(*ssa.Call)
+						if ok && ssax.StaticCallee(tc) != nil && len(tc.Call.Args) == 3 && tc.Call.Args[0] == ev && tc.Call.Args[1] == ssa.Value(nameP) && tc.Call.Args[2] == pathV {
+							okT = true
+						}
+					}
+				}
+				c.Check(okT, "R07.3", k3, p.Pos(cl.Pos()), "error translated with (err, name, path) of the same computation",
+					fmt.Sprintf("%s: the error of %s is not passed through the translator with the name and sub-path of the same Mount call — callers would see paths of the parent's namespace", fname(fn), ssax.CallName(cl)))
+				return
+			}
 			if ok0 && rx.Index == 0 {
 				if m, ok := rx.Tuple.(*ssa.Call); ok && ssax.StaticCallee(m) == mount && m.Call.Args[0] == ssa.Value(recv) {
 					mc = m
@@ -808,6 +845,19 @@ func r07ViewDelegatesByName(c *core.Ctx, p *load.Program) {
 					}
 				}
 			}
+			if !usesSub && cc.IsInvoke() {
+				if u, isU := cc.Value.(*ssa.UnOp); isU {
+					if fa, isFA := u.X.(*ssa.FieldAddr); isFA && fa.X == ssa.Value(recvParam(fn)) {
+						for _, a := range cc.Args {
+							if _, okV := subViewPath(a, recvParam(fn), 0); okV && isStringish(a.Type()) {
+								if _, isParam := a.(*ssa.Parameter); !isParam {
+									usesSub = true
+								}
+							}
+						}
+					}
+				}
+			}
 			if !usesSub {
 				return
 			}
@@ -839,4 +889,87 @@ func r07ViewDelegatesByName(c *core.Ctx, p *load.Program) {
 	if cnt < 3 {
 		c.Hard("anchor: delegating methods of the generic Sub view (found %d)", cnt)
 	}
+}
+
+// subViewPath: v is computed the way the Sub view's Mount computes its sub-path from a name: the name parameter itself,
+// path.Join(<field of the receiver>, name), or a merge of those for ONE name parameter. Returns that parameter.
+func subViewPath(v ssa.Value, recv *ssa.Parameter, depth int) (*ssa.Parameter, bool) {
+	if depth > 4 || recv == nil {
+		return nil, false
+	}
+	switch x := v.(type) {
+	case *ssa.Parameter:
+		if x != recv && isStringish(x.Type()) {
+			return x, true
+		}
+	case *ssa.Phi:
+		var np *ssa.Parameter
+		for _, e := range x.Edges {
+			q, ok := subViewPath(e, recv, depth+1)
+			if !ok || (np != nil && q != np) {
+				return nil, false
+			}
+			np = q
+		}
+		return np, np != nil
+	case *ssa.Call:
+		if !ssax.CalleeIs(x, "path", "Join") || len(x.Call.Args) != 1 {
+			return nil, false
+		}
+		el := variadicElems(x.Call.Args[0])
+		if len(el) != 2 {
+			return nil, false
+		}
+		base, _, isField := ssax.FieldLoad(el[0])
+		if !isField || base != ssa.Value(recv) {
+			return nil, false
+		}
+		if q, ok := el[1].(*ssa.Parameter); ok && q != recv {
+			return q, true
+		}
+	}
+	return nil, false
+}
+
+// r07DirectUseIsMountShaped: every load of the parent-FS field in fn is used only as the receiver of interface calls
+// whose string arguments are computed as Mount computes its sub-path (and at least one is a join, not the bare name).
+func r07DirectUseIsMountShaped(fn *ssa.Function, sub *types.Named, fsField string) bool {
+	recv := recvParam(fn)
+	if recv == nil {
+		return false
+	}
+	ok, any := true, false
+	ssax.Instrs(fn, func(ins ssa.Instruction) {
+		u, isU := ins.(*ssa.UnOp)
+		if !isU || !isLoadOfNamedField(u, sub, fsField) || u.Referrers() == nil {
+			return
+		}
+		for _, r := range *u.Referrers() {
+			cl, isCall := r.(*ssa.Call)
+			if !isCall || !cl.Call.IsInvoke() || cl.Call.Value != ssa.Value(u) {
+				if _, isDbg := r.(*ssa.DebugRef); isDbg {
+					continue
+				}
+				ok = false
+				continue
+			}
+			joined := false
+			for _, a := range cl.Call.Args {
+				if !isStringish(a.Type()) {
+					continue
+				}
+				if _, good := subViewPath(a, recv, 0); !good {
+					ok = false
+				}
+				if _, isParam := a.(*ssa.Parameter); !isParam {
+					joined = true
+				}
+			}
+			if !joined {
+				ok = false // the bare name handed to the parent: untranslated
+			}
+			any = true
+		}
+	})
+	return ok && any
 }
